@@ -430,6 +430,9 @@ class Spec(object):
         # generations
         out.append(pa(one, 'PUT alloc stale consumer generation', cgen=cgen_of(d, k, True)))
         out.append(pa(one, 'PUT alloc consumer generation null', cgen=None))
+        # 0 is what a record carries between its creation and its first write: never a valid
+        # generation to send (a consumer that does not exist takes null only)
+        out.append(pa(one, 'PUT alloc consumer generation 0', cgen=0))
         out.append(pa({}, 'PUT alloc {} consumer generation null', cgen=None))
         out.append(pa({}, 'PUT alloc {} stale consumer generation', cgen=cgen_of(d, k, True)))
         # semantic rejections
